@@ -198,6 +198,59 @@ def run(ctx, run):
     # comparison (rule shared with C13)
     from . import C13
     C13._call_letters_rearm(ctx, run)
+    _current_packet_labelled(ctx, run)
+
+
+def _current_packet_labelled(ctx, run):
+    """vbi_xds_demux_feed delivers xd->curr, whose class / subclass fields are set when a sub-packet becomes current.
+    Start *and* continue codes make a sub-packet current (curr_sp := non-NULL); both have to label it: every such store
+    is accompanied, on every path, by stores of curr.xds_class and curr.xds_subclass (before it in a dominating position,
+    or after it before the function returns).  Otherwise a resumed packet is delivered under the label of the packet that
+    interrupted it."""
+    P = ctx.prog
+    f = P.need("vbi_xds_demux_feed", "src/xds_demux.c")
+    run.touch(f)
+    sites = []
+    for bid, i in flow.all_events(f):
+        for lhs, var, op, rhs in flow.stores(f, i):
+            if lhs is None or rhs is None or op != "=":
+                continue
+            l = f.exprs[ex.skip(f, lhs)]
+            if l["k"] == "mem" and l["member"] == "curr_sp" and l.get("in") == "_vbi_xds_demux" and not ex.is_null(f, rhs):
+                sites.append((bid, i))
+    run.floor("stores that make an XDS sub-packet current in vbi_xds_demux_feed", len(sites), 1)
+
+    def labels(member):
+        def pred(ff, ii):
+            for lhs, var, op, rhs in flow.stores(ff, ii):
+                if lhs is None:
+                    continue
+                l = ff.exprs[ex.skip(ff, lhs)]
+                if l["k"] == "mem" and l["member"] == member and l.get("in") == "vbi_xds_packet":
+                    return True
+            return False
+        return pred
+    for bid, i in sites:
+        missing = []
+        for member in ("xds_class", "xds_subclass"):
+            pred = labels(member)
+            ok, _ = atoms.must_pass(f, i, pred)
+            if not ok:
+                # before the store: in the same block, or on every path from the entry (edge cut)
+                pos = flow.elem_pos(f)[i][1]
+                ok = any(pred(f, j) for j in f.blocks[bid].elems[:pos] if flow.is_event(f, j))
+                if not ok:
+                    hit = {b for b, j in flow.all_events(f) if pred(f, j)}
+                    ok = bid not in flow.reach_from(f, f.entry, avoid=hit)
+            if not ok:
+                missing.append(member)
+        key = "RF-CORR:vbi_xds_demux_feed:current-packet-labelled"
+        if missing:
+            run.violation("RF-CORR", key, "`%s` makes a sub-packet current on a path that does not set xd->curr.%s: the packet is "
+                          "delivered under the class / subclass of whatever packet was started last"
+                          % (ex.pretty(f, i)[:60], " / ".join(missing)), ex.loc(f, i), witness={"function": f.name, "missing": missing})
+        else:
+            run.holds("RF-CORR", key, "`%s` is accompanied by the class and subclass stores on every path" % ex.pretty(f, i)[:60], ex.loc(f, i))
 
 
 def _canon(f, node):
